@@ -67,6 +67,23 @@ def enumerate_cases(tier, seed):
             if mn < -126 or mx > 127:   # exponent interval must fit float32's normal range
               continue
             out.append(cfg)
+  base = list(out)
+  # use_stochastic_rounding=True in the INFERENCE phase: rounding is deterministic there, every clause holds unchanged
+  for cfg in base:
+    if cfg["bits"] in ((3, 5) if tier == "quick" else (2, 3, 4, 5, 6)):
+      out.append(dict(cfg, stoch_inf=True))
+  # other quantizer objects built and used BEFORE the one under test (quadratic approximation, another max_value,
+  # neighbouring bit widths): quantizers are independent objects, nothing one of them does may change another
+  for cfg in base:
+    if cfg["bits"] not in (3, 4, 5) or cfg["max_value"] not in (None, 2.0) or cfg["slope"] not in (0.0, 0.25):
+      continue
+    b = cfg["bits"]
+    for pre in ([dict(cls="quantized_po2", bits=b, max_value=None, log2_rounding="rnd", slope=0.0, quadratic=True)],
+                [dict(cls="quantized_relu_po2", bits=b, max_value=None, log2_rounding="rnd", slope=0.0, quadratic=True)],
+                [dict(cls="quantized_relu_po2", bits=b - 1, max_value=None, log2_rounding="rnd", slope=0.0, quadratic=True),
+                 dict(cls="quantized_po2", bits=b + 1, max_value=None, log2_rounding="floor", slope=0.0, quadratic=True)],
+                [dict(cls=cfg["cls"], bits=b, max_value=0.5, log2_rounding=cfg["log2_rounding"], slope=cfg["slope"])]):
+      out.append(dict(cfg, pre=pre))
   if tier == "thorough":
     for cfg in SWEEP_CONFIGS:
       for sh in range(SHARDS):
@@ -220,14 +237,30 @@ def run_case(cfg):
             "min()": "leaky" if cfg["slope"] else "", "max()": "leaky" if cfg["slope"] else "",
             "floor-exponent": "", "nearest-exponent": ""}
 
+  variant = ":stochastic-inference" if cfg.get("stoch_inf") else (":after-other-quantizers" if cfg.get("pre") else "")
+
+  # the variants re-decide the exponent clauses and add a differential clause (same outputs as the plain object); the
+  # clauses about min()/max()/re-quantization do not depend on the variant and are decided by the plain cases
+  skip = {"idempotent", "min()", "max()"} if variant else set()
+
   def bad(clause, what, **detail):
     tags = tagmap.get(clause, "")
+    if clause in skip:
+      return
     if len(viol) < 8:
-      viol.append({"key": "%s:%s%s" % (cfg["cls"], clause, (":" + tags) if tags else ""),
-                   "what": "%s %s: %s" % (cfg["cls"], clause, what), "detail": dict(cfg=cfg, **detail)})
+      viol.append({"key": "%s:%s%s%s" % (cfg["cls"], clause, (":" + tags) if tags else "", variant),
+                   "what": "%s %s%s: %s" % (cfg["cls"], clause, variant.replace(":", " [") + ("]" if variant else ""), what),
+                   "detail": dict(cfg=cfg, **detail)})
 
-  q = make(cfg)
+  y_plain = np.asarray(make(cfg)(tf.constant(x)), dtype=np.float32) if variant else None
+  for pc in cfg.get("pre", []):
+    pq = make(pc, **({"quadratic_approximation": True} if pc.get("quadratic") else {}))
+    pq(tf.constant(x))
+  q = make(cfg, **({"use_stochastic_rounding": True} if cfg.get("stoch_inf") else {}))
   y = np.asarray(q(tf.constant(x)), dtype=np.float32)
+  if variant and not np.array_equal(y, y_plain):
+    i = int(np.flatnonzero(y != y_plain)[0])
+    bad("differs-from-plain", "x=%r -> %r, the plain quantizer of the same configuration gave %r" % (float(x[i]), float(y[i]), float(y_plain[i])))
   y64 = y.astype(np.float64)
   evals = 0
   finite = np.isfinite(y64) & (y64 != 0)
@@ -304,7 +337,7 @@ def run_case(cfg):
   exps = np.unique(e)
   nontrivial = int((len(exps) > 1 or mn == mx) and exps.min() == mn and bool(np.any(y64 != x64)))
   return {"evals": evals, "transitions": 1 if cfg["slope"] else 2, "nontrivial": nontrivial,
-          "state": repr(sorted(cfg.items())), "digest": common.digest(y, qmin, qmax), "violations": viol,
+          "state": repr(sorted((k, repr(v)) for k, v in cfg.items())), "digest": common.digest(y, qmin, qmax), "violations": viol,
           "traces": int(x.size),
           "sample": {"cfg": cfg, "exp_interval": [mn, mx], "alphabet_size": int(x.size),
                      "distinct_exponents": int(len(exps))}}
